@@ -3,9 +3,9 @@ package sim
 import (
 	"bytes"
 	"context"
-	"sync/atomic"
 	"fmt"
 	"strings"
+	"sync/atomic"
 	"time"
 
 	leader "github.com/ali-assar/NATS-Leader-Election/leader"
@@ -18,25 +18,25 @@ var freeCb atomic.Int64
 
 // elObj is one election object (an Inst may create several: restart).
 type elObj struct {
-	in   *Inst
-	gen  int
-	el   leader.Election
-	conn *nats.Conn
-	cancelStart context.CancelFunc
-	started bool
-	dead    bool // crashed/abandoned: claims no longer count
-	gauge   float64
-	gaugeSet bool
-	lastTo  string
-	afterStart bool
-	terms   int
+	in                *Inst
+	gen               int
+	el                leader.Election
+	conn              *nats.Conn
+	cancelStart       context.CancelFunc
+	started           bool
+	dead              bool // crashed/abandoned: claims no longer count
+	gauge             float64
+	gaugeSet          bool
+	lastTo            string
+	afterStart        bool
+	terms             int
 	promotes, demotes int
 	failedStop        bool // a StopWithContext of this object returned an error (no OnDemote promised)
-	healthTick int
-	lastAckRev uint64
-	inDemote   int
-	termToken  string
-	lateAck    bool
+	healthTick        int
+	lastAckRev        uint64
+	inDemote          int
+	termToken         string
+	lateAck           bool
 }
 
 // Inst is one participant (InstanceID) of the plan.
@@ -48,23 +48,24 @@ type Inst struct {
 	cur  *elObj
 	gen  int
 
-	running     bool // Start returned ok and no stop invoked since
-	crashed     bool
-	inStopCall  int
-	stopRetStep uint64
-	stopRetAt   time.Duration
-	stopOK      bool
-	opsAfterStop []*Op
-	nOps        int
-	nKind       map[string]int
-	healthPos   int
-	startedAt   time.Duration
-	watchOK     bool
-	parkedYields int
-	inflightOps  int
-	apiBusy      int
-	watchOKAt    time.Duration
-	fellAt       time.Duration // latest falling edge of the claim
+	running        bool // Start returned ok and no stop invoked since
+	crashed        bool
+	inStopCall     int
+	stopRetStep    uint64
+	stopRetAt      time.Duration
+	stopOK         bool
+	opsAfterStop   []*Op
+	nOps           int
+	nKind          map[string]int
+	healthPos      int
+	startedAt      time.Duration
+	watchOK        bool
+	parkedYields   int
+	inflightOps    int
+	apiBusy        int
+	watchOKAt      time.Duration
+	fellAt         time.Duration // latest falling edge of the claim
+	lastStaleEvtAt time.Duration // latest delivery of a notification older than the key's latest message
 }
 
 func (in *Inst) key() string { return in.cfg.Group }
@@ -81,15 +82,15 @@ func (d *Driver) newObj(in *Inst) (*elObj, error) {
 		jp = &simProviderMon{prov}
 	}
 	cfg := leader.ElectionConfig{
-		Bucket:                p.Bucket,
-		Group:                 in.cfg.Group,
-		InstanceID:            in.cfg.ID,
-		TTL:                   p.TTL,
-		HeartbeatInterval:     p.H,
-		ValidationInterval:    in.cfg.V,
-		DisconnectGracePeriod: in.cfg.Grace,
-		Priority:              in.cfg.Prio,
-		AllowPriorityTakeover: in.cfg.Takeover,
+		Bucket:                 p.Bucket,
+		Group:                  in.cfg.Group,
+		InstanceID:             in.cfg.ID,
+		TTL:                    p.TTL,
+		HeartbeatInterval:      p.H,
+		ValidationInterval:     in.cfg.V,
+		DisconnectGracePeriod:  in.cfg.Grace,
+		Priority:               in.cfg.Prio,
+		AllowPriorityTakeover:  in.cfg.Takeover,
 		MaxConsecutiveFailures: in.cfg.MaxHealth,
 	}
 	if !d.free {
@@ -180,9 +181,9 @@ func (m *obsMetrics) IncTransitions(l prometheus.Labels) {
 	o.lastTo = to
 	o.afterStart = false
 }
-func (m *obsMetrics) IncFailures(prometheus.Labels)                          {}
-func (m *obsMetrics) IncAcquireAttempts(prometheus.Labels)                   {}
-func (m *obsMetrics) IncTokenValidationFailures(prometheus.Labels)           {}
+func (m *obsMetrics) IncFailures(prometheus.Labels)                             {}
+func (m *obsMetrics) IncAcquireAttempts(prometheus.Labels)                      {}
+func (m *obsMetrics) IncTokenValidationFailures(prometheus.Labels)              {}
 func (m *obsMetrics) ObserveHeartbeatDuration(time.Duration, prometheus.Labels) {}
 func (m *obsMetrics) ObserveLeaderDuration(time.Duration, prometheus.Labels)    {}
 
